@@ -141,6 +141,10 @@ class Identities(SubCheck):
         try:
             r, uhf = _run(case, rows, reuse=bool(case.get("reuse_driver")))
         except Exception as e:
+            if "A-B matrix has negative eigenvalues" in str(e):
+                # RPA on a reference that is unstable in this SCF state (PM3 AlCl with Pulay: alarm of a background sweep at seed 4): the
+                # code refuses loudly, which is an honest failure signal, not an inconsistent observable (C16 treats it the same way)
+                return Outcome.inconclusive("rpa_unstable_reference", labels)
             return Outcome.fail(f"exception:{type(e).__name__}", f"{type(e).__name__}: {e}", labels)
         if notconv(r).any():
             return Outcome.inconclusive("scf_not_converged", labels)
